@@ -28,7 +28,7 @@ type Obligation struct {
 	Guard  string
 	Claim  string
 	Pos    string
-	Cover  bool // reachability cover: expected sat
+	Cover  bool   // reachability cover: expected sat
 	Static string // non-empty: decided without a solver (contract clause could not be interpreted)
 	Extra  []string
 	Meta   string // machine-readable note (e.g. which callee parameter a guarantee is about)
@@ -66,11 +66,11 @@ type loopInfo struct {
 	spec   *LoopSpec
 	// captured at header for preservation checks
 	headState *state
-	phis     []*ssa.Phi
-	entryEnv map[string]Val
-	rangeIdx *ssa.Phi
-	rangeLen string
-	seenKey  string // ghost "seen" set for map ranges
+	phis      []*ssa.Phi
+	entryEnv  map[string]Val
+	rangeIdx  *ssa.Phi
+	rangeLen  string
+	seenKey   string // ghost "seen" set for map ranges
 }
 
 // inlineCtx: the function currently being symbolically executed is an uncontracted callee inlined into g.key
@@ -89,18 +89,18 @@ type inlineRet struct {
 }
 
 type gen struct {
-	inl        *inlineCtx
-	inlineSeq  int
+	inl          *inlineCtx
+	inlineSeq    int
 	entryMeasure string // value of the contract's `decreases` measure at entry (recursive functions)
 	depthFacts   bool   // emit the well-foundedness facts of syntax trees (astdepth) with the theory ast-valid
-	e    *Engine
-	fn   *ssa.Function
-	key  string
-	ctr  *Contract
-	st   *sortTable
-	cmds []string
-	obls []*Obligation
-	vals map[ssa.Value]Val
+	e            *Engine
+	fn           *ssa.Function
+	key          string
+	ctr          *Contract
+	st           *sortTable
+	cmds         []string
+	obls         []*Obligation
+	vals         map[ssa.Value]Val
 
 	heapSort map[string]string
 	nfresh   int
@@ -113,52 +113,52 @@ type gen struct {
 	curBlock *ssa.BasicBlock
 	curReach string
 
-	loops     map[*ssa.BasicBlock]*loopInfo
-	loopList  []*loopInfo
-	loopMod   map[*ssa.BasicBlock]map[string]bool // from pass 1
-	written   map[*ssa.BasicBlock]map[string]bool
-	knownPtrs []string
-	allocs    []string
-	oblCount  map[string]int
-	callOrd   map[string]int
-	debugVals map[string]debugRef // latest DebugRef by name (approximate)
-	unsupported []string
-	assumed   map[string]bool // names of assumed contracts / axioms used
-	props     []string
-	sweep     bool // zero-annotation sweep mode: emit safety obligations only
-	logs      map[string]int
-	retVals   [][]Val
-	embSeen   map[string]bool
-	options   genOptions
-	knownSorts map[string]string
-	assertedOnce map[string]bool
+	loops         map[*ssa.BasicBlock]*loopInfo
+	loopList      []*loopInfo
+	loopMod       map[*ssa.BasicBlock]map[string]bool // from pass 1
+	written       map[*ssa.BasicBlock]map[string]bool
+	knownPtrs     []string
+	allocs        []string
+	oblCount      map[string]int
+	callOrd       map[string]int
+	debugVals     map[string]debugRef // latest DebugRef by name (approximate)
+	unsupported   []string
+	assumed       map[string]bool // names of assumed contracts / axioms used
+	props         []string
+	sweep         bool // zero-annotation sweep mode: emit safety obligations only
+	logs          map[string]int
+	retVals       [][]Val
+	embSeen       map[string]bool
+	options       genOptions
+	knownSorts    map[string]string
+	assertedOnce  map[string]bool
 	lastLoadEntry bool
-	frameMode bool // generate per-write frame obligations
-	assignPlaces []*Place
-	assignErr error
-	frameProps []string
-	opaques map[string]*opaqueDef
-	onCall func(g *gen, c *ssa.CallCommon, callee *ssa.Function, args []Val, pos token.Pos)
-	inAxiom bool
-	rangeSeen string
+	frameMode     bool // generate per-write frame obligations
+	assignPlaces  []*Place
+	assignErr     error
+	frameProps    []string
+	opaques       map[string]*opaqueDef
+	onCall        func(g *gen, c *ssa.CallCommon, callee *ssa.Function, args []Val, pos token.Pos)
+	inAxiom       bool
+	rangeSeen     string
 	rangeSeenSort string
-	onStore func(g *gen, ins *ssa.Store, addr Val, v Val) // extra obligations at stores (property-specific sweeps)
-	onAccess func(g *gen, key string, pos token.Pos, what string)
-	pendingKeys map[string]bool // heap keys a spawned, not yet joined goroutine may write
-	deferred []*ssa.Defer
-	sweepFrames string // non-empty: frame sweep of this property; callees are called through their sweep frame contracts
-	ifaceCtrs []*Contract // contracts of interface methods this method implements (behavioural subtyping)
-	skipCand   map[string]bool // candidate invariants that did not hold on an earlier pass (sweeps)
-	rxElemKey  string // element array of syntax.Expr lists (theory regex-syntax-valid), preserved for rxlist bases
-	outerState *state // the state current when the outermost old(...) / state switch started (see loadLocal)
-	loopHavoc bool // the havoc in progress is a loop cut, not a call
-	stableCells []stableCell
-	astValid bool // assume theory ast-valid about go/ast node fields
-	nilArgs bool  // assume/guarantee: pointer-to-node and receiver arguments of repository calls are non-nil
-	curCall *ssa.CallCommon
-	allocVars map[token.Pos]*ssa.Alloc
-	pendingGo []func() // effects of spawned goroutines, re-applied at the join
-	readLog map[string]bool
+	onStore       func(g *gen, ins *ssa.Store, addr Val, v Val) // extra obligations at stores (property-specific sweeps)
+	onAccess      func(g *gen, key string, pos token.Pos, what string)
+	pendingKeys   map[string]bool // heap keys a spawned, not yet joined goroutine may write
+	deferred      []*ssa.Defer
+	sweepFrames   string          // non-empty: frame sweep of this property; callees are called through their sweep frame contracts
+	ifaceCtrs     []*Contract     // contracts of interface methods this method implements (behavioural subtyping)
+	skipCand      map[string]bool // candidate invariants that did not hold on an earlier pass (sweeps)
+	rxElemKey     string          // element array of syntax.Expr lists (theory regex-syntax-valid), preserved for rxlist bases
+	outerState    *state          // the state current when the outermost old(...) / state switch started (see loadLocal)
+	loopHavoc     bool            // the havoc in progress is a loop cut, not a call
+	stableCells   []stableCell
+	astValid      bool // assume theory ast-valid about go/ast node fields
+	nilArgs       bool // assume/guarantee: pointer-to-node and receiver arguments of repository calls are non-nil
+	curCall       *ssa.CallCommon
+	allocVars     map[token.Pos]*ssa.Alloc
+	pendingGo     []func() // effects of spawned goroutines, re-applied at the join
+	readLog       map[string]bool
 }
 
 type genOptions struct {
@@ -1509,6 +1509,7 @@ func (g *gen) loopInvariants(li *loopInfo) []*Clause {
 			}}})
 		}
 	}
+	out = append(out, g.countingInvariants(li)...)
 	if li.spec != nil {
 		out = append(out, li.spec.Invs...)
 	}
@@ -1539,6 +1540,74 @@ func (g *gen) loopInvariants(li *loopInfo) []*Clause {
 			if strings.HasPrefix(en.Label, "owned-") {
 				out = append(out, en)
 			}
+		}
+	}
+	return out
+}
+
+// countingInvariants: an integer variable that every back edge of the loop increases (decreases) by a positive constant
+// and nothing else assigns stays at or above (at or below) the value it entered the loop with. The clause is an ordinary
+// invariant: shown on entry and across every back edge, assumed at the cut. It gives "for i := len(xs)-1; i >= 0; i--"
+// and "for i := k; i < n; i++" their missing bound.
+func (g *gen) countingInvariants(li *loopInfo) []*Clause {
+	var out []*Clause
+	for _, p := range li.phis {
+		if p.Comment == "rangeindex" || len(p.Edges) != len(li.header.Preds) {
+			continue
+		}
+		if b, ok := p.Type().Underlying().(*types.Basic); !ok || b.Info()&types.IsInteger == 0 {
+			continue
+		}
+		var init ssa.Value
+		dir, okShape := 0, true
+		for i, e := range p.Edges {
+			if !li.blocks[li.header.Preds[i]] {
+				if init != nil && init != e {
+					okShape = false
+				}
+				init = e
+				continue
+			}
+			bo, ok := e.(*ssa.BinOp)
+			if !ok || bo.X != ssa.Value(p) || (bo.Op != token.ADD && bo.Op != token.SUB) {
+				okShape = false
+				break
+			}
+			c, ok := bo.Y.(*ssa.Const)
+			if !ok || c.Value == nil || c.Value.Kind() != constant.Int {
+				okShape = false
+				break
+			}
+			sg := constant.Sign(c.Value)
+			if bo.Op == token.SUB {
+				sg = -sg
+			}
+			if sg == 0 || (dir != 0 && dir != sg) {
+				okShape = false
+				break
+			}
+			dir = sg
+		}
+		if !okShape || init == nil || dir == 0 {
+			continue
+		}
+		var initE *SExpr
+		if c, ok := init.(*ssa.Const); ok && c.Value != nil && c.Value.Kind() == constant.Int {
+			initE = &SExpr{Op: "int", Lit: c.Value.ExactString()}
+		} else if _, ok := g.vals[init]; ok && init.Parent() == g.fn {
+			initE = &SExpr{Op: "id", Name: "$reg:" + init.Name()}
+		} else {
+			continue
+		}
+		id := &SExpr{Op: "id", Name: "$phi:" + p.Name()}
+		name := p.Comment
+		if name == "" {
+			name = p.Name()
+		}
+		if dir > 0 {
+			out = append(out, &Clause{Label: "counter-never-below-its-start " + name, E: &SExpr{Op: ">=", Args: []*SExpr{id, initE}}})
+		} else {
+			out = append(out, &Clause{Label: "counter-never-above-its-start " + name, E: &SExpr{Op: "<=", Args: []*SExpr{id, initE}}})
 		}
 	}
 	return out
@@ -1576,7 +1645,6 @@ func (g *gen) bindLoopVars(env *specEnv, li *loopInfo, valOf func(*ssa.Phi) Val)
 		env.vars["$phi:"+p.Name()] = v
 	}
 }
-
 
 // assumeFrame: in a function whose writes are all checked against its `assigns` clause, any heap array
 // equals the entry array at every object that was alive at entry and is not named in `assigns`
